@@ -5,7 +5,8 @@
    for a rerun), any pre-handlers, any interrupt-before/after sets, any position of the node
    (direct successors of START included: [start] tests the initial task set). *)
 From Eino Require Import Base.Util Model.Graph Model.RunLoop Model.Interrupt Model.IntrObs
-     Proofs.RunLoop Proofs.RunLoopEager Proofs.Interrupt Proofs.InterruptWitness.
+     Proofs.RunLoop Proofs.RunLoopEager Proofs.Interrupt Proofs.InterruptWitness
+     Proofs.RunLoopDrive Proofs.InterruptDrive.
 Open Scope N_scope.
 
 Section Generic.
@@ -105,6 +106,73 @@ Section Generic.
     (forall i c, co_out co = OInterrupted i c -> with_id = true -> store' = Some (ser c)) /\
     (co_written co = false -> store' = store).
   Proof. intros B ser deser; exact (call_written_iff ser deser). Qed.
+
+  (* ---- segment level: every interrupt a run segment returns — on the initial task set or after any
+     number of steps, batch or eager under any schedule, fresh or resumed — reports every
+     interrupt-before node that is pending in the checkpoint it leaves (before list, rerun list or
+     nested information) ---- *)
+  Theorem interrupt_reports_pending_fresh : forall fuel cs0 (gs0 : GS) x env i c log env',
+    start zero fold getr pre exec before after fuel cs0 gs0 x env = (OInterrupted i c, log, env') ->
+    reports_pending before i c.
+  Proof. exact (start_interrupt_reports zero fold getr pre exec before after). Qed.
+
+  Theorem interrupt_reports_pending_resumed : forall fuel sm (c0 : @checkpoint V CS GS SCP) env i c log env',
+    resume zero fold getr pre exec before after fuel sm c0 env = (OInterrupted i c, log, env') ->
+    reports_pending before i c.
+  Proof. exact (resume_interrupt_reports zero fold getr pre exec before after). Qed.
+
+  Theorem interrupt_reports_pending_fresh_eager : forall fuel cs0 (gs0 : GS) x sched env i c log env',
+    estart zero fold getr pre exec before after false fuel cs0 gs0 x sched env = (OInterrupted i c, log, env') ->
+    reports_pending before i c.
+  Proof. exact (estart_interrupt_reports zero fold getr pre exec before after). Qed.
+
+  Theorem interrupt_reports_pending_resumed_eager : forall fuel sm (c0 : @checkpoint V CS GS SCP) sched env i c log env',
+    eresume zero fold getr pre exec before after false fuel sm c0 sched env = (OInterrupted i c, log, env') ->
+    reports_pending before i c.
+  Proof. exact (eresume_interrupt_reports zero fold getr pre exec before after). Qed.
+
+  (* ---- the first clause composed, for the whole run driven through a store ----
+     Whatever the segments are, as long as they satisfy the four segment-level statements above (batch:
+     [before_never_runs_fresh], [before_never_runs_unresumed], [interrupt_reports_pending_*]; the model:
+     see below) and the store round-trips: a node configured as interrupt-before executes in call j of
+     the run only if j > 0 and call j-1 returned an interrupt, whose checkpoint was written under the id,
+     that reported the node (before list, rerun list or nested information) — and call j is the
+     caller's explicit resume. *)
+  Theorem before_needs_reported_interrupt : forall {B : Type} (ser : @checkpoint V CS GS SCP -> B) deser,
+    (forall c, deser (ser c) = Some c) ->
+    forall fuel cs0 (gs0 : GS) x tick with_id n mods env cos env' j co ev,
+      drive ser deser (start zero fold getr pre exec before after fuel cs0 gs0 x)
+            (resume zero fold getr pre exec before after fuel) tick with_id n O mods None env = (cos, env') ->
+      nth_error cos j = Some co -> In ev (co_log co) -> memN (ev_key ev) before = true ->
+      exists j' co' i c, j = S j' /\ nth_error cos j' = Some co' /\
+                         co_out co' = OInterrupted i c /\ co_written co' = true /\ reported i (ev_key ev).
+  Proof. intros B ser deser; exact (drive_before_needs_report_batch zero fold getr pre exec before after ser deser). Qed.
+
+  (* ---- after_stops_successors, eager mode, at the level of the segment: the iteration in which the
+     loop collects an interrupt-after node is the last of the segment, whatever the remaining budget
+     and whatever is still running; the log ends with the tasks submitted before that collection ---- *)
+  Theorem after_stops_successors_eager_segment : forall (s : @estate V CS GS SCP SINFO) sched env c rest sched' k,
+    collected pre exec s sched env = Some (c, rest, sched') ->
+    In k (afters after [c]) ->
+    forall fuel log, exists o,
+      eiterate zero fold getr pre exec before after false (S fuel) s sched env log =
+        (o, log ++ fst (esubmitted pre exec s env), snd (esubmitted pre exec s env)) /\
+      match o with
+      | OInterrupted i _ => In k (ii_after i)
+      | ODone _ | OFailed _ => True
+      | OLimit => False
+      end.
+  Proof. exact (eiterate_after_stops zero fold getr pre exec before after). Qed.
+
+  (* ---- checkpoint_iff_interrupt for every call of the driven run (any segments) ---- *)
+  Theorem checkpoint_iff_interrupt_driven : forall {B : Type} (ser : @checkpoint V CS GS SCP -> B) deser
+      (fresh : ENV -> @outcome V CS GS SCP SINFO * list (@event V) * ENV)
+      (resumed : (GS -> GS) -> @checkpoint V CS GS SCP -> ENV -> @outcome V CS GS SCP SINFO * list (@event V) * ENV)
+      tick with_id n k mods store env cos env',
+    drive ser deser fresh resumed tick with_id n k mods store env = (cos, env') ->
+    forall co, In co cos ->
+      (co_written co = true <-> (with_id = true /\ exists i c, co_out co = OInterrupted i c)).
+  Proof. intros B ser deser fresh resumed tick; exact (drive_written_iff ser deser fresh resumed tick). Qed.
 End Generic.
 
 (* ---------------------------------------------------------------------------------------------
@@ -123,6 +191,54 @@ Theorem before_never_runs_unresumed_model :
     seg_resumed ex gi g sm c e = (o, log, e') ->
     forall ev, In ev log -> memN (ev_key ev) (gs_before g) = true -> In (ev_key ev) (map fst (cp_inputs c)).
 Proof. exact seg_resumed_before_only_pending. Qed.
+
+(* the segments of the model report every pending interrupt-before node, at every nesting level *)
+Theorem interrupt_reports_pending_fresh_model :
+  forall (ex : N -> option ncp -> value -> env -> tex * env) (gi : N) (g : gspec) x e i c log e',
+    seg_fresh ex gi g x e = (OInterrupted i c, log, e') -> reports_pending (gs_before g) i c.
+Proof. exact seg_fresh_interrupt_reports. Qed.
+
+Theorem interrupt_reports_pending_resumed_model :
+  forall (ex : N -> option ncp -> value -> env -> tex * env) (gi : N) (g : gspec) sm c0 e i c log e',
+    seg_resumed ex gi g sm c0 e = (OInterrupted i c, log, e') -> reports_pending (gs_before g) i c.
+Proof. exact seg_resumed_interrupt_reports. Qed.
+
+(* THE FIRST CLAUSE for [run_drive], the very definition the correspondence check evaluates on every
+   case (either mode at the top level, any forest, any list handed to WithInterruptBeforeNodes — names
+   given twice, names of no node): a node of the top-level graph configured as interrupt-before
+   executes in call j only if call j-1 returned an interrupt that reported it, checkpoint written *)
+Theorem before_needs_reported_interrupt_run :
+  forall (F : list gspec) g0 with_id mods x e cos e' j co ev,
+    nth_error F 0 = Some g0 ->
+    run_drive F with_id mods x e = (cos, e') ->
+    nth_error cos j = Some co -> In ev (co_log co) -> memN (ev_key ev) (gs_before g0) = true ->
+    exists j' co' i c, j = S j' /\ nth_error cos j' = Some co' /\
+                       co_out co' = OInterrupted i c /\ co_written co' = true /\ reported i (ev_key ev).
+Proof. exact run_drive_before_needs_report. Qed.
+
+Theorem checkpoint_iff_interrupt_run : forall (F : list gspec) with_id mods x e cos e',
+  run_drive F with_id mods x e = (cos, e') ->
+  forall co, In co cos ->
+    (co_written co = true <-> (with_id = true /\ exists i c, co_out co = OInterrupted i c)).
+Proof. exact run_drive_written_iff. Qed.
+
+(* non-vacuity of the run-level statement: two calls, the interrupt-before node runs in the second, the
+   first reported it and wrote its checkpoint; the configured list names the node twice and a node
+   that does not exist *)
+Example before_needs_reported_interrupt_run_witness : exists co1 co2 e ev i c,
+  run_drive [wd_chain] true [] wd_x (env0 []) = ([co1; co2], e) /\
+  In ev (co_log co2) /\ memN (ev_key ev) (gs_before wd_chain) = true /\
+  co_out co1 = OInterrupted i c /\ co_written co1 = true /\ ii_before i = [3] /\ ii_after i = [2] /\
+  (exists v, co_out co2 = ODone v) /\ co_written co2 = false.
+Proof. exact wd_chain_run. Qed.
+
+(* non-vacuity of [after_stops_successors_eager_segment]: a Workflow START -> {2, 3} -> 4 -> END with
+   interrupt-after {2}: node 2 is collected while node 3 is still running *)
+Example after_stops_successors_eager_segment_witness : exists s c rest sched',
+  wd_eager_state = Some s /\
+  collected (pre_fn wd_eager) (node_exec 1 [wd_eager] wd_eager) s [2; 3] (env0 []) = Some (c, rest, sched') /\
+  In 2 (afters (gs_after wd_eager) [c]) /\ rest <> [].
+Proof. exact wd_eager_collects_after_node. Qed.
 
 (* non-vacuity, and the position the tests never reach: interrupt-before on the direct successor of
    START — nothing runs, the node is reported *)
@@ -155,3 +271,16 @@ Print Assumptions before_never_runs_fresh_model.
 Print Assumptions before_never_runs_unresumed_model.
 Print Assumptions before_first_node_is_honoured.
 Print Assumptions before_never_runs_fresh_v0_refuted.
+Print Assumptions interrupt_reports_pending_fresh.
+Print Assumptions interrupt_reports_pending_resumed.
+Print Assumptions interrupt_reports_pending_fresh_eager.
+Print Assumptions interrupt_reports_pending_resumed_eager.
+Print Assumptions before_needs_reported_interrupt.
+Print Assumptions after_stops_successors_eager_segment.
+Print Assumptions checkpoint_iff_interrupt_driven.
+Print Assumptions interrupt_reports_pending_fresh_model.
+Print Assumptions interrupt_reports_pending_resumed_model.
+Print Assumptions before_needs_reported_interrupt_run.
+Print Assumptions checkpoint_iff_interrupt_run.
+Print Assumptions before_needs_reported_interrupt_run_witness.
+Print Assumptions after_stops_successors_eager_segment_witness.
